@@ -62,7 +62,9 @@ pub enum Ev {
     /// A message object that contradicts itself is fed to the main instance: its byte getters say
     /// `raw`, its `to_structured()` says `st`. No reference model can follow; nothing is judged
     /// until the next reset (after which everything must be as new) or restore.
-    Liar { raw: [u8; 3], st: [u8; 3] },
+    /// `fickle`: instead, every byte getter answers `raw` on its first call and `st` on later calls
+    /// (an impure getter), and `to_structured()` is the trait's default.
+    Liar { raw: [u8; 3], st: [u8; 3], fickle: bool },
     /// A third-party message object whose getter `which` (0 status byte, 1 data byte 1, 2 data
     /// byte 2) panics - a corrupt device buffer behind a checked accessor - is fed to the main
     /// instance; the host catches the panic and carries on. No message was delivered.
@@ -131,7 +133,7 @@ impl Ev {
             Ev::Restore => J::arr([J::s("restore")]),
             Ev::Hop { n } => J::arr([J::s("hop"), ji(*n)]),
             Ev::Unwinding { n } => J::arr([J::s("unwinding"), ji(*n)]),
-            Ev::Liar { raw, st } => J::arr([J::s("feed_liar"), ji(raw[0]), ji(raw[1]), ji(raw[2]), ji(st[0]), ji(st[1]), ji(st[2])]),
+            Ev::Liar { raw, st, fickle } => J::arr([J::s("feed_liar"), ji(raw[0]), ji(raw[1]), ji(raw[2]), ji(st[0]), ji(st[1]), ji(st[2]), ji(*fickle as u8)]),
             Ev::FeedAbort { b, which } => J::arr([J::s("feed_abort"), ji(b[0]), ji(b[1]), ji(b[2]), ji(*which)]),
             Ev::Bulk { n, cycle } => J::arr([J::s("bulk"), ji(*n), J::arr(cycle.iter().map(|b| J::arr([ji(b[0]), ji(b[1]), ji(b[2])])))]),
             Ev::Fork { k, burst } => J::arr([
@@ -194,7 +196,7 @@ impl Ev {
             "restore" => Ev::Restore,
             "hop" => Ev::Hop { n: n(1, 255)? as u8 },
             "unwinding" => Ev::Unwinding { n: n(1, 255)? as u8 },
-            "feed_liar" => Ev::Liar { raw: [n(1, 255)? as u8, n(2, 255)? as u8, n(3, 255)? as u8], st: [n(4, 255)? as u8, n(5, 255)? as u8, n(6, 255)? as u8] },
+            "feed_liar" => Ev::Liar { raw: [n(1, 255)? as u8, n(2, 255)? as u8, n(3, 255)? as u8], st: [n(4, 255)? as u8, n(5, 255)? as u8, n(6, 255)? as u8], fickle: a.len() > 7 && n(7, 1)? == 1 },
             "feed_abort" => Ev::FeedAbort { b: [n(1, 255)? as u8, n(2, 255)? as u8, n(3, 255)? as u8], which: n(4, 2)? as u8 },
             "bulk" => {
                 let mut cycle = Vec::new();
@@ -341,8 +343,9 @@ impl Trace {
                     h.b(16);
                     h.b(*n);
                 }
-                Ev::Liar { raw, st } => {
+                Ev::Liar { raw, st, fickle } => {
                     h.b(17);
+                    h.b(*fickle as u8);
                     for x in raw.iter().chain(st.iter()) {
                         h.b(*x);
                     }
